@@ -1,6 +1,6 @@
 """C09 — k-means: one arg-min routine; all reported quantities of a fit describe one and the same state."""
 from .core import RuleResult
-from .facts import fn_key, fn_loc, walk, strip, peel_refs, pat_bindings, Render
+from .facts import fn_file, fn_key, fn_loc, walk, strip, peel_refs, pat_bindings, Render
 from .sym import Tracer, Term, Cmp, k, as_term, walk_terms
 
 LEVEL = ("Static analysis of linfa-clustering k-means: (argmin) fit, fit_with, both predict forms and transform all obtain "
@@ -336,11 +336,22 @@ def rule_fresh(ctx):
         # from the centroid matrix as it is when the use happens: no reassignment between last fill and use
         all_mut_ids = set(m["local"] for _, _, ms in fills for m in ms)
         uses = [b for b in tr.events if b.kind in ("break", "ret", "assign", "let") and (locals_in(b.node["init"] if b.kind == "let" else b.node) & all_mut_ids)]
+        # ... and calls that read a buffer directly (`best_memberships.assign(&memberships)`, `compute_centroids(.., &memberships)`)
+        fill_nodes = set(id(e.node) for e, _, _ in fills)
+        for b in tr.events:
+            if b.kind != "call" or id(b.node) in fill_nodes:
+                continue
+            direct = [a for a in ([b.node.get("recv")] if b.node.get("recv") is not None else []) + list(b.node.get("args", []))]
+            if any(peel_refs(a).get("k") == "Path" and peel_refs(a).get("local") in all_mut_ids for a in direct):
+                uses.append(b)
         for e, cent, muts in fills:
             res.instance("%s : %s(&%s, .., &mut %s)" % (key, e.name, cent["name"], ",".join(m["name"] for m in muts)))
         n_stale = 0
         for u in uses:
-            used = locals_in(u.node["init"] if u.kind == "let" else u.node) & all_mut_ids
+            if u.kind == "call":
+                used = set(peel_refs(a).get("local") for a in ([u.node.get("recv")] if u.node.get("recv") is not None else []) + list(u.node.get("args", [])) if peel_refs(a).get("k") == "Path") & all_mut_ids
+            else:
+                used = locals_in(u.node["init"] if u.kind == "let" else u.node) & all_mut_ids
             prior = [(e, cent, muts) for e, cent, muts in fills if e.order < u.order and used & set(m["local"] for m in muts)]
             if not prior:
                 continue
@@ -374,5 +385,84 @@ def rule_fresh(ctx):
     return res.finish(1)
 
 
+def for_bodies(fn):
+    """(for-loop node, user body) of every `for` loop of a function"""
+    for m in walk(fn["body"]):
+        if m.get("k") == "Match" and m.get("src") == "ForLoopDesugar":
+            loop = next((x for x in walk(m["arms"][0]["body"]) if x.get("k") == "Loop"), None)
+            if loop is None:
+                continue
+            inner = next((x for x in walk(loop["body"]) if x.get("k") == "Match" and len(x.get("arms", [])) == 2 and any(strip(a["body"]).get("k") == "Break" for a in x["arms"])), None)
+            if inner is None:
+                continue
+            body = next((a["body"] for a in inner["arms"] if strip(a["body"]).get("k") != "Break"), None)
+            if body is not None:
+                yield m, body
+
+
+def rule_init(ctx):
+    """'exactly k finite centroids ... each inside the bounding box of the training data when initialised from it': an
+    initialiser that allocates its result with placeholder content (zeros) and returns it whole must overwrite every row;
+    a loop that fills the rows and can be left early returns placeholder rows as centroids."""
+    res = RuleResult("R-C09-init", "an initialiser that returns a zero-allocated centroid matrix fills its rows in loops that cannot be left early")
+    F = ctx.facts()
+    fns = [f for f in F.all_fns() if f["d"]["krate"] == "linfa_clustering" and fn_file(f).endswith("k_means/init.rs")]
+    n = 0
+    for fn in fns:
+        c = fn["crate"]
+        tail = fn["body"]
+        while strip(tail).get("k") == "Block" and strip(tail).get("e") is not None:
+            tail = strip(tail)["e"]
+        tail = peel_refs(tail)
+        if tail.get("k") != "Path" or "local" not in tail:
+            continue
+        alloc = None
+        for x in walk(fn["body"]):
+            if x.get("k") == "LetStmt" and x.get("init") is not None and x["pat"].get("k") == "Bind" and x["pat"]["local"] == tail["local"]:
+                ini = strip(x["init"])
+                if ini.get("k") == "Call":
+                    d = c.dfn(strip(ini["f"]).get("def")) if strip(ini["f"]).get("k") == "Path" else None
+                    if d and d["krate"] == "ndarray" and d["name"] in ("zeros", "default", "ones", "from_elem", "uninit"):
+                        alloc = x
+        if alloc is None:
+            continue
+        key = fn_key(fn)
+        for loop, body in for_bodies(fn):
+            writes = [x for x in walk(body) if x.get("k") == "MethodCall" and x["name"] in ("assign", "fill", "row_mut", "index_axis_mut", "slice_mut") and (root_local_of(x["recv"]) == tail["local"])]
+            if not writes:
+                continue
+            n += 1
+            inst = "%s : loop filling `%s` (line %d)" % (key, tail.get("name"), loop.get("ln", 0))
+            res.instance("%s : loop filling `%s`" % (key, tail.get("name")))
+            exits = [x for x in walk(body) if x.get("k") in ("Break", "Ret")]
+            # breaks that belong to loops nested inside the body leave only those
+            nested = []
+            for l2, b2 in for_bodies({"body": body}):
+                nested += [id(x) for x in walk(b2) if x.get("k") == "Break" and not x.get("label")]
+            exits = [x for x in exits if id(x) not in nested]
+            if exits:
+                res.violate("%s : early-exit-from-fill" % key, "the loop that fills the rows of the zero-allocated `%s` can be left early (line %d): the remaining rows stay zero and are returned as centroids (not data points, possibly outside the data's bounding box)" % (tail.get("name"), exits[0].get("ln", 0)), fn_loc(fn, exits[0].get("ln")))
+            else:
+                res.ok()
+                res.sample({"site": inst})
+    if n < 1:
+        res.missing_anchor("row-filling loop of weighted_k_means_plusplus")
+    return res.finish(1)
+
+
+def root_local_of(n):
+    while isinstance(n, dict):
+        n = peel_refs(n)
+        if n.get("k") == "Path":
+            return n.get("local")
+        if n.get("k") == "MethodCall":
+            n = n["recv"]
+        elif n.get("k") in ("Index", "Field"):
+            n = n["e"]
+        else:
+            return None
+    return None
+
+
 def rules(tier):
-    return [rule_argmin, rule_best, rule_fresh]
+    return [rule_argmin, rule_best, rule_fresh, rule_init]
